@@ -223,75 +223,86 @@ class Ref:
             self.fix_top()
             self.xcol = self.off2col(self.r, self.o)
 
-    def motion(self, cnt, key, arg=None):
-        """Returns False when the reference defines the motion as failing (cursor stays)."""
+    def target(self, cnt, key, arg=None, has=None):
+        """The raw target of a motion from the cursor: None when the reference defines the motion
+        as failing, else (row, off) with off None for a line-wise motion.  off is raw: it may be
+        the terminator's index (len(line)) or one more (^ on an all-blank line); landing clamps it."""
         L = self.L
-        if not L:
-            # the empty buffer: every motion leaves the cursor at (0, 0)
-            if key in 'fFtT':
-                self.last = (key, arg)
-            return True
         n = len(L)
-        has = cnt > 0
-        c = cnt if has else 1
+        if has is None:
+            has = cnt > 0
+        c = cnt if cnt > 0 else 1
         r, o = self.r, self.o
-        kind = 'char'
         if key in '+j':
-            r, kind = min(r + c, n - 1), 'line'
-        elif key in '-k':
-            r, kind = max(r - c, 0), 'line'
-        elif key == '_':
-            r, kind = min(r + c - 1, n - 1), 'line'
-        elif key == 'G':
-            r, kind = (min(c - 1, n - 1) if has else n - 1), 'line'
-        elif key == 'H':
-            r, kind = max(0, min(self.top + c - 1, n - 1)), 'line'
-        elif key == 'L':
-            r, kind = max(0, min(self.top + self.rows - c, n - 1)), 'line'
-        elif key == 'M':
-            r, kind = min(self.top + self.rows // 2, n - 1), 'line'
-        elif key == '%' and has:
+            return max(0, min(r + c, n - 1)), None
+        if key in '-k':
+            return max(r - c, 0), None
+        if key == '_':
+            return max(0, min(r + c - 1, n - 1)), None
+        if key == 'G':
+            return max(0, (min(c - 1, n - 1) if has else n - 1)), None
+        if key == 'H':
+            return max(0, min(self.top + c - 1, n - 1)), None
+        if key == 'L':
+            return max(0, min(self.top + self.rows - c, n - 1)), None
+        if key == 'M':
+            return max(0, min(self.top + self.rows // 2, n - 1)), None
+        if key == '%' and has:
             if c > 100:
-                return False
-            r, kind = (n - 1) * c // 100, 'line'
-        elif key in 'fFtT;,':
+                return None
+            return max(0, n - 1) * c // 100, None
+        if key in 'fFtT;,':
             if key in ';,':
                 if self.last is None:
-                    return False
+                    return None
                 cmd, ch = self.last
                 k = c if key == ';' else -c
             else:
                 cmd, ch, k = key, arg, c
                 self.last = (cmd, ch)
+            if not L:
+                return None
             i = self.find(cmd, ch, k, r, o)
             if i is None:
-                return False
-            o = i
-        elif key == 'h':
-            o = max(0, o - c)
-        elif key == 'l':
-            o = self.clampo(r, o + c)
-        elif key == ' ':
-            o = min(o + c, len(L[r]))       # may reach the terminator; clamped below
-        elif key == '\b':
-            o = max(0, o - c)
-        elif key == '0':
-            o = 0
-        elif key == '^':
-            o = self.indent(r)
-        elif key == '$':
-            o = self.clampo(r, len(L[r]))
-        elif key == '|':
-            o = self.col2off(r, c - 1)
-        elif key in 'wWeEbB':
+                return None
+            return r, i
+        if not L:
+            # the empty buffer: h l w b e ... do not fail and do not move; % fails
+            return None if key == '%' else (0, 0)
+        ln = L[r]
+        if key == 'h':
+            return r, max(0, o - c)
+        if key == 'l':
+            return r, self.clampo(r, o + c)
+        if key == ' ':
+            return r, min(o + c, len(ln))
+        if key == '\b':
+            return r, max(0, o - c)
+        if key == '0':
+            return r, 0
+        if key == '^':
+            k = 0
+            while k < len(ln) and ln[k] in SPACES:
+                k += 1
+            return r, (k if k < len(ln) else len(ln) + 1)
+        if key == '$':
+            return r, len(ln)
+        if key == '|':
+            pos = coltab(ln + '\n')
+            k = 0
+            for i, p in enumerate(pos):
+                if p <= c - 1:
+                    k = i
+            return r, k
+        if key in 'wWeEbB':
             p = self.to_flat(r, o)
             f = {'w': self.w1, 'e': self.e1, 'b': self.b1}[key.lower()]
             for _ in range(c):
                 p, failed = f(p, key.isupper())
                 if failed:
                     break
-            r, o = self.from_flat(p)
-        elif key in '{}':
+            return self.from_flat(p)
+        if key in '{}':
             for _ in range(c):
                 if key == '}':
                     while r < n and L[r] == '':
@@ -304,27 +315,27 @@ class Ref:
                     while r >= 0 and L[r] != '':
                         r -= 1
                 r = max(0, min(r, n - 1))
-            o = 0
-        elif key == '%':
-            t = self.pair(r, o)
-            if t is None:
-                return False
-            r, o = t
-        else:
-            raise ValueError(key)
-        # landing
-        if kind == 'line0':
-            o = 0
-        elif kind == 'line' and key not in 'jk':
-            o = self.indent(r)
-        elif key in 'jk':
-            o = self.col2off(r, self.xcol)
+            return r, 0
+        if key == '%':
+            return self.pair(r, o)
+        raise ValueError(key)
+
+    def motion(self, cnt, key, arg=None):
+        """Returns False when the reference defines the motion as failing (cursor stays)."""
+        t = self.target(cnt, key, arg)
+        if t is None:
+            return False
+        if not self.L:
+            return True
+        r, o = t
+        if o is None:
+            o = self.col2off(r, self.xcol) if key in 'jk' else self.indent(r)
         o = self.clampo(r, o)
         self.r, self.o = r, o
         if key == '|':
-            self.xcol = c - 1
+            self.xcol = (cnt if cnt > 0 else 1) - 1
         elif key not in 'jk':
-            self.xcol = 0 if kind == 'line0' else self.off2col(r, o)
+            self.xcol = self.off2col(r, o)
         self.fix_top()
         return True
 
